@@ -1,16 +1,45 @@
+//! scratch
 use dropshot::*;
 use schemars::JsonSchema;
 use serde::Deserialize;
+use std::time::Duration;
+use tokio::io::AsyncWriteExt;
+use verif_harness::httpc;
+
 #[derive(Deserialize, JsonSchema)]
-/// A plain struct
-struct Plain { name: String }
-async fn h(_r: RequestContext<()>, _b: TypedBody<Option<Plain>>) -> Result<HttpResponseOk<Option<Plain2>>, HttpError> { Ok(HttpResponseOk(None)) }
-#[derive(serde::Serialize, JsonSchema)]
-struct Plain2 { x: u8 }
-fn main() {
+struct B { x: u32 }
+#[endpoint { method = PUT, path = "/b" }]
+async fn put_b(_r: RequestContext<()>, b: TypedBody<B>) -> Result<HttpResponseOk<u32>, HttpError> { Ok(HttpResponseOk(b.into_inner().x)) }
+#[endpoint { method = GET, path = "/g" }]
+async fn get_g(_r: RequestContext<()>) -> Result<HttpResponseOk<u32>, HttpError> { Ok(HttpResponseOk(1)) }
+
+#[tokio::main]
+async fn main() {
     let mut api = ApiDescription::new();
-    api.register(ApiEndpoint::new("op".into(), h, http::Method::PUT, "application/json", "/t", ApiEndpointVersions::All)).unwrap();
-    let d = api.openapi("t", semver::Version::new(1,0,0)).json().unwrap();
-    println!("{}", serde_json::to_string_pretty(&d["paths"]).unwrap());
-    println!("{}", serde_json::to_string_pretty(&d["components"]).unwrap());
+    api.register(put_b).unwrap();
+    api.register(get_g).unwrap();
+    let log = slog::Logger::root(slog::Discard, slog::o!());
+    let server = ServerBuilder::new(api, (), log).config(ConfigDropshot { bind_address: "127.0.0.1:0".parse().unwrap(), ..Default::default() }).start().unwrap();
+    let addr = server.local_addr();
+    let body = b"{\"x\": 5}";
+    for (name, ext, trailer, chunked) in [("cl", false, false, false), ("chunked", false, false, true), ("ext", true, false, true), ("trailer", false, true, true), ("both", true, true, true)] {
+        let hdr = vec![("content-type".to_string(), "application/json".to_string())];
+        let mut req = if chunked {
+            let mut h = hdr.clone();
+            h.push(("transfer-encoding".into(), "chunked".into()));
+            let mut r = httpc::build_request("PUT", "/b", &h, None);
+            r.extend_from_slice(&httpc::chunked_body(body, &[3, 5], ext, trailer));
+            r
+        } else {
+            httpc::build_request("PUT", "/b", &hdr, Some(body))
+        };
+        req.extend_from_slice(&httpc::build_request("GET", "/g", &[], None));
+        let mut s = httpc::connect(addr).await.unwrap();
+        s.write_all(&req).await.unwrap();
+        let mut rd = httpc::Reader::new();
+        let r1 = rd.read_response(&mut s, false, Duration::from_secs(3)).await;
+        let r2 = rd.read_response(&mut s, false, Duration::from_secs(3)).await;
+        println!("{}: first {} {:?} conn={:?}; second {} wellformed={} problem={}", name, r1.status, String::from_utf8_lossy(&r1.body), r1.header("connection"), r2.status, r2.wellformed, r2.problem);
+    }
+    let _ = server.close().await;
 }
